@@ -2,9 +2,9 @@ SPECIFICATION Spec
 CONSTANTS
   Modes = {"WebRtc", "Srtp", "Rtp"}
   MediaSets = {{"dc"}, {"audio"}, {"video"}, {"dc", "audio"}, {"dc", "video"}, {"audio", "video"}, {"dc", "audio", "video"}}
-  Bundles = {"balanced", "maxbundle", "maxcompat"}
+  Bundles = {"balanced", "maxcompat"}
   Muxes = {"require", "negotiate"}
-  Ices = {"full", "liteA", "liteB", "tcp", "udpmux"}
+  Ices = {"full", "liteA", "liteB", "tcp", "tcpActive+tcp", "udpmuxA", "udpmuxB", "udpmuxAB", "liteA+udpmuxB", "liteB+udpmuxA"}
   Latchings = {TRUE, FALSE}
   Compats = {"Standard", "LegacySip"}
   Offerers = {"A", "B"}
